@@ -178,7 +178,15 @@ func c20Case(r *evid.Run, tier string, idx int, g *rng.R) {
 	if g.P(10) {
 		qURI = rng.Pick(g, []string{"urn:b ", " urn:b", "urn:b\n"})
 	}
-	args := []string{"-x", ex.src, "-s", "p=urn:a", "-s", "q=" + qURI, "-v", "v=" + vval, "-v", "p:w=W", "-e", "ent=" + entVal}
+	// flags may come in any order: a prefixed -v before the -s that binds its prefix, -x last, ...
+	groups := [][]string{{"-x", ex.src}, {"-s", "p=urn:a"}, {"-s", "q=" + qURI}, {"-v", "v=" + vval}, {"-v", "p:w=W"}, {"-e", "ent=" + entVal}}
+	if g.P(60) {
+		rng.Shuffle(g, groups)
+	}
+	var args []string
+	for _, gr := range groups {
+		args = append(args, gr...)
+	}
 	if flagA {
 		args = append(args, "-a")
 	}
